@@ -1,7 +1,7 @@
 import IOptModel.Evolvent
 import IOptGen.NodeTable
 /-!
-The hand-written `Ev.node` / `Ev.numbr` coincide, on their WHOLE domain for N = 2..5, with the
+The hand-written `Ev.node` / `Ev.numbr` coincide, on their WHOLE domain for N = 2..7, with the
 input/output tables of `Evolvent.__CalculateNode` / `__CalculateNumbr` that the translator extracts
 from the running Python code on every run (`IOptGen/NodeTable.lean`).  A change of either function
 in /repo changes the regenerated table and breaks these kernel-decided equalities.
@@ -17,10 +17,14 @@ theorem node_table2 : nodeTableOf 2 = Gen.nodeTable2 := by decide +kernel
 theorem node_table3 : nodeTableOf 3 = Gen.nodeTable3 := by decide +kernel
 theorem node_table4 : nodeTableOf 4 = Gen.nodeTable4 := by decide +kernel
 theorem node_table5 : nodeTableOf 5 = Gen.nodeTable5 := by decide +kernel
+theorem node_table6 : nodeTableOf 6 = Gen.nodeTable6 := by decide +kernel
+theorem node_table7 : nodeTableOf 7 = Gen.nodeTable7 := by decide +kernel
 
 theorem numbr_table2 : Gen.numbrTable2.length = 2^2 ∧ Gen.numbrTable2.all (numbrRowOK 2) = true := by decide +kernel
 theorem numbr_table3 : Gen.numbrTable3.length = 2^3 ∧ Gen.numbrTable3.all (numbrRowOK 3) = true := by decide +kernel
 theorem numbr_table4 : Gen.numbrTable4.length = 2^4 ∧ Gen.numbrTable4.all (numbrRowOK 4) = true := by decide +kernel
 theorem numbr_table5 : Gen.numbrTable5.length = 2^5 ∧ Gen.numbrTable5.all (numbrRowOK 5) = true := by decide +kernel
+theorem numbr_table6 : Gen.numbrTable6.length = 2^6 ∧ Gen.numbrTable6.all (numbrRowOK 6) = true := by decide +kernel
+theorem numbr_table7 : Gen.numbrTable7.length = 2^7 ∧ Gen.numbrTable7.all (numbrRowOK 7) = true := by decide +kernel
 
 end Ev
